@@ -41,6 +41,26 @@ fn nav_mut<'a>(doc: &'a mut DocumentMut, path: &Path) -> Option<Cur<'a>> {
     Some(cur)
 }
 
+/// read-only walk to a table through tables and array-of-tables elements
+fn re_nav_table<'a>(doc: &'a DocumentMut, path: &Path) -> Option<&'a Table> {
+    let mut cur: &Table = doc.as_table();
+    let mut i = 0;
+    while i < path.len() {
+        let Seg::Key(k) = &path[i] else { return None };
+        match cur.get(k)? {
+            Item::Table(t) => cur = t,
+            Item::ArrayOfTables(a) => {
+                i += 1;
+                let Some(Seg::Idx(j)) = path.get(i) else { return None };
+                cur = a.get(*j)?;
+            }
+            _ => return None,
+        }
+        i += 1;
+    }
+    Some(cur)
+}
+
 fn as_table<'a>(c: Cur<'a>) -> Option<&'a mut Table> {
     match c {
         Cur::Item(Item::Table(t)) => Some(t),
@@ -226,7 +246,8 @@ struct State {
     /// tables on which sort_values ran: the in-memory position of their sub-tables is not what
     /// the documentation talks about; iteration order is compared as a set there
     sorted: Vec<Path>,
-    just_sorted: Option<Path>,
+    /// the table on which sort_values / sort_values_by (reverse key order when `true`) just ran
+    just_sorted: Option<(Path, bool)>,
     /// parents whose array of tables lost its first element: the array's place among its siblings
     /// was that element's header; where the remaining elements put it is not decided (like U2.c)
     moved_aot_parents: Vec<Path>,
@@ -339,13 +360,19 @@ fn step(s: &mut State, t: &mut Tape) -> Result<Option<&'static str>, Failure> {
                 7 if !(s.restrict && s.excl == Excl::NoSort) => {
                     s.excl = Excl::NoPush;
                     // sort_values: orders the value entries (and dotted tables) by key; tables keep theirs
-                    table.sort_values();
-                    sort_values_model(mt);
+                    let rev = t.chance(1, 3);
+                    if rev {
+                        // a caller-supplied order: reverse key order, applied to dotted tables below as well
+                        table.sort_values_by(|k1, _, k2, _| k2.get().cmp(k1.get()));
+                    } else {
+                        table.sort_values();
+                    }
+                    sort_values_model(mt, rev);
                     s.sorted.push(path.clone());
-                    s.just_sorted = Some(path.clone());
+                    s.just_sorted = Some((path.clone(), rev));
                     // the lines are kept, their order changes: fragments stay, order is re-derived
-                    s.log.push(format!("{}.sort_values()", path_str(&path)));
-                    Ok(Some("table.sort_values"))
+                    s.log.push(format!("{}.{}", path_str(&path), if rev { "sort_values_by(reverse key order)" } else { "sort_values()" }));
+                    Ok(Some(if rev { "table.sort_values_by" } else { "table.sort_values" }))
                 }
                 10 | 11 | 12 => {
                     // conversions between inline and standard forms of one entry
@@ -718,7 +745,7 @@ fn lines_of_table(model: &Tbl, tbl: &Path, leaf: &Path) -> bool {
 /// Table::sort_values is documented to sort the key/value pairs and not to affect sub-tables or
 /// arrays of tables: body lines (values and dotted tables) are sorted by key, recursively through
 /// dotted tables; sections keep their relative order (they print by document position)
-fn sort_values_model(t: &mut Tbl) {
+fn sort_values_model(t: &mut Tbl, rev: bool) {
     let is_section = |n: &Node| match n {
         Node::Aot(_) => true,
         Node::Table(x) => !matches!(x.kind, TblKind::Inline | TblKind::Dotted),
@@ -733,11 +760,11 @@ fn sort_values_model(t: &mut Tbl) {
             body.push(e)
         }
     }
-    body.sort_by(|a, b| a.0.cmp(&b.0));
+    body.sort_by(|a, b| if rev { b.0.cmp(&a.0) } else { a.0.cmp(&b.0) });
     for (_, n) in body.iter_mut() {
         if let Node::Table(x) = n {
             if x.kind == TblKind::Dotted {
-                sort_values_model(x);
+                sort_values_model(x, rev);
             }
         }
     }
@@ -903,14 +930,48 @@ fn check_state_doc(s: &State, doc: &DocumentMut, start_text: &str) -> Result<(),
         }
     }
     let mut got = model::from_doc(&re);
-    if let Some(p) = &s.just_sorted {
-        let mut g2 = got.clone();
-        if let Some(t) = mnav(&mut g2, p).and_then(mtable) {
-            let body: Vec<&String> = t.entries.iter().filter(|(_, n)| !matches!(n, Node::Aot(_)) && !matches!(n, Node::Table(x) if matches!(x.kind, TblKind::Std | TblKind::Implicit | TblKind::AotElem))).map(|e| &e.0).collect();
+    if let Some((p, rev)) = &s.just_sorted {
+        // the body lines of the table - and of the dotted-key tables below it - are in the order asked for
+        fn body_in_order(t: &Tbl, rev: bool, at: &mut Vec<String>) -> Result<(), (Vec<String>, Vec<String>)> {
+            let body: Vec<String> = t.entries.iter().filter(|(_, n)| !matches!(n, Node::Aot(_)) && !matches!(n, Node::Table(x) if matches!(x.kind, TblKind::Std | TblKind::Implicit | TblKind::AotElem))).map(|e| e.0.clone()).collect();
             let mut sorted = body.clone();
             sorted.sort();
+            if rev {
+                sorted.reverse();
+            }
             if body != sorted {
-                return Err(Failure::new("sort", format!("after sort_values the body lines of {} are not in key order: {body:?}\n{}", path_str(p), ctx()), case()));
+                return Err((at.clone(), body));
+            }
+            Ok(())
+        }
+        // below it: the library recurses into dotted-key tables held as `Item::Table` (a dotted table
+        // inside a former inline table stays a value and is left alone - not pinned by the docs)
+        fn doc_in_order(t: &Table, rev: bool, at: &mut Vec<String>) -> Result<(), (Vec<String>, Vec<String>)> {
+            let body: Vec<String> = t.iter().filter(|(_, it)| it.is_value() || matches!(it, Item::Table(x) if x.is_dotted())).map(|(k, _)| k.to_string()).collect();
+            let mut sorted = body.clone();
+            sorted.sort();
+            if rev {
+                sorted.reverse();
+            }
+            if body != sorted {
+                return Err((at.clone(), body));
+            }
+            for (k, it) in t.iter() {
+                if let Item::Table(x) = it {
+                    if x.is_dotted() {
+                        at.push(k.to_string());
+                        doc_in_order(x, rev, at)?;
+                        at.pop();
+                    }
+                }
+            }
+            Ok(())
+        }
+        let mut g2 = got.clone();
+        if let Some(t) = mnav(&mut g2, p).and_then(mtable) {
+            let in_doc = re_nav_table(doc, p).map(|dt| doc_in_order(dt, *rev, &mut vec![])).unwrap_or(Ok(()));
+            if let Err((at, body)) = body_in_order(t, *rev, &mut vec![]).and(in_doc) {
+                return Err(Failure::new("sort", format!("after {} the body lines of {} (dotted sub-table {at:?}) are not in {} key order: {body:?}\n{}", if *rev { "sort_values_by(reverse)" } else { "sort_values" }, path_str(p), if *rev { "descending" } else { "ascending" }, ctx()), case()));
             }
         }
     }
@@ -1100,7 +1161,7 @@ fn prop_with(t: &mut Tape, st: &mut Stats, probe: bool) -> Result<(), Failure> {
             s.just_sorted = None;
         }
     }
-    let special = classes.iter().any(|c| matches!(*c, "array.replace-last" | "table.add-table-under-implicit-or-dotted" | "table.sort_values" | "aot.remove"))
+    let special = classes.iter().any(|c| matches!(*c, "array.replace-last" | "table.add-table-under-implicit-or-dotted" | "table.sort_values" | "table.sort_values_by" | "aot.remove"))
         || classes.windows(2).any(|w| w[0] == "table.remove" && w[1].starts_with("table.insert"));
     if (classes.len() >= 3 && touched_containers.len() >= 2) || special {
         st.nontrivial(fnv64(format!("{}{:?}", r.text, s.log).as_bytes()));
@@ -1112,7 +1173,7 @@ fn prop_with(t: &mut Tape, st: &mut Stats, probe: bool) -> Result<(), Failure> {
 
 pub fn run(args: Args) -> ! {
     let mut rep = Report::new("C08", args.tier, args.seed);
-    rep.rule = "stateful: a generated start document (every line carries a unique comment marker; repeated key-path components spelled consistently) and 1..25 generated edits on containers chosen from the current model: Table insert (new / existing key) / IndexMut assignment / remove / remove_entry / add sub-table / retain / entry().or_insert / sort_values / fmt / mutable-indexing probe; Item make_value / into_table / into_array_of_tables on an entry; InlineTable insert / remove / get_or_insert; Array push / push_formatted / insert / replace / remove / retain / clear; ArrayOfTables push / remove / clear. After every edit: the printed text parses (library and reference), decodes to the edited plain model (values before tables; empty arrays of tables and empty implicit/dotted tables hidden), the structure reads back as the model, and the source text `key = value # marker` of every untouched entry is still in the output verbatim. non-trivial = >= 3 edits over >= 2 containers, or a special pattern (insert after remove, replace of the last array element, table under an implicit/dotted parent, sort, array-of-tables removal); distinct by (document, edits)".into();
+    rep.rule = "stateful: a generated start document (every line carries a unique comment marker; repeated key-path components spelled consistently) and 1..25 generated edits on containers chosen from the current model: Table insert (new / existing key) / IndexMut assignment / remove / remove_entry / add sub-table / retain / entry().or_insert / sort_values / sort_values_by (reverse key order) / fmt / mutable-indexing probe; Item make_value / into_table / into_array_of_tables on an entry; InlineTable insert / remove / get_or_insert; Array push / push_formatted / insert / replace / remove / retain / clear; ArrayOfTables push / remove / clear. After every edit: the printed text parses (library and reference), decodes to the edited plain model (values before tables; empty arrays of tables and empty implicit/dotted tables hidden), the structure reads back as the model, and the source text `key = value # marker` of every untouched entry is still in the output verbatim. non-trivial = >= 3 edits over >= 2 containers, or a special pattern (insert after remove, replace of the last array element, table under an implicit/dotted parent, sort, array-of-tables removal); distinct by (document, edits)".into();
     rep.assumptions = vec![
         "raw decor setters, set_dotted/set_implicit/set_position are outside the quantifier (property text)".into(),
         "comparison of untouched fragments is modulo CR (CR handling is C03's subject)".into(),
@@ -1145,7 +1206,7 @@ pub fn run(args: Args) -> ! {
     finish_run(&mut rep, "edits", run);
     let run = run_tape("C08.f18probe", &prop_f18probe, 3000, args.tier.pick(30_000, 400_000), args.seed, workers());
     finish_run(&mut rep, "f18probe", run);
-    for c in ["entry.make_value", "entry.into_table", "entry.into_array_of_tables", "table.vivify-probe", "inline.vivify-probe", "table.insert-new", "table.insert-existing", "table.remove", "table.add-table", "table.add-table-under-implicit-or-dotted", "table.retain", "table.sort_values", "inline.insert", "inline.remove", "array.push", "array.insert", "array.replace", "array.replace-last", "array.remove", "aot.push", "aot.remove"] {
+    for c in ["entry.make_value", "entry.into_table", "entry.into_array_of_tables", "table.vivify-probe", "inline.vivify-probe", "table.insert-new", "table.insert-existing", "table.remove", "table.add-table", "table.add-table-under-implicit-or-dotted", "table.retain", "table.sort_values", "table.sort_values_by", "inline.insert", "inline.remove", "array.push", "array.insert", "array.replace", "array.replace-last", "array.remove", "aot.push", "aot.remove"] {
         rep.require_class(c);
     }
     rep.finish()
